@@ -198,15 +198,22 @@ def boundary_states(acc, unit):
                 return True
         return False
 
-    def strip(state):
-        # no function or variable name of tpmstream is assumed: carried values are recognised by what they are
-        return tuple((name, tuple((k, v) for k, v in loc if not carried(v))) for name, lasti, loc in state)
+    def strip(state, other=None):
+        # no function or variable name of tpmstream is assumed: a local is dropped when its value is a carried kind
+        # in this state or in the state it is compared with (None before the first message, a command code after it)
+        drop = set()
+        for st in (state, other or ()):
+            for i, (name, lasti, loc) in enumerate(st):
+                for k, v in loc:
+                    if carried(v):
+                        drop.add((i, k))
+        return tuple((name, tuple((k, v) for k, v in loc if (i, k) not in drop)) for i, (name, lasti, loc) in enumerate(state))
 
     # the state is captured when the pump asks for the next byte, i.e. before the events of the last byte are
     # drained: compare one byte into the next command (its first tag byte) with one byte into the first command
     nxt = b"\x80"
     r0 = bytestep.run_prefix(T, nxt, True, {})
-    s0 = strip(r0.state)
+    s0raw = r0.state
     for label in unit["labels"]:
         if label not in full:
             continue
@@ -220,9 +227,9 @@ def boundary_states(acc, unit):
             acc.shape(("boundary", label, k))
             if rk.state is None:
                 acc.violation({"clause": "boundary-state:no-state", "pairs": k}, {"harness": "boundary", "label": label, "messages": [c.hex(), r.hex()] * k}, f"after {k} pair(s) of {label} the decoder does not ask for more input ({rk.kind})")
-            elif strip(rk.state) != s0:
-                a, b = strip(rk.state), s0
-                diff = next((f"{x[0]}: {set(x[2]) ^ set(y[2])}" for x, y in zip(a, b) if x != y), f"stack depth {len(a)} vs {len(b)}")
+            elif strip(rk.state, s0raw) != strip(s0raw, rk.state):
+                a, b = strip(rk.state, s0raw), strip(s0raw, rk.state)
+                diff = next((f"{x[0]}: {set(x[-1]) ^ set(y[-1])}" for x, y in zip(a, b) if x != y), f"stack depth {len(a)} vs {len(b)}")
                 acc.violation({"clause": "boundary-state:differs-from-initial", "pairs": k}, {"harness": "boundary", "label": label, "messages": [c.hex(), r.hex()] * k}, f"after {k} pair(s) of {label} the coroutine state differs from the initial state: {diff[:300]}")
     acc.sample({"unit": unit["label"], "what": "canonical coroutine state after 1 and 2 complete pairs == state before the first byte (modulo carried command code)"}, cap=1)
     return acc
